@@ -1,0 +1,20 @@
+//go:build verif
+
+// Contracts for package zaptest, read by /verif/govc. Comment-only; compiled
+// only under the build tag "verif".
+
+package zaptest
+
+//@ iface zaptest.TestingT.Logf
+//@   modifies $user
+
+//@ iface zaptest.TestingT.Fail
+//@   modifies $user
+
+//@ func (zaptest.TestingWriter).Write
+//@   props C13
+//@   flags nopanic
+//@   requires w.t != nil
+//@   track LG = invoke zaptest.TestingT.Logf
+//@   ensures #LG == 1
+//@   ensures err == nil && n == len(p)
